@@ -187,7 +187,113 @@ fn one(rep: &mut Report, t: &[[f32; 2]; 3], all_orders: bool, strict_sig: bool) 
 /// Two triangles sharing an edge / fans: union coverage. Outside the band
 /// exactly-once follows from the per-triangle verdicts; *inside* the band
 /// gaps and overdraw are counted (informational: the property exempts them).
+/// Jittered grid of quads, each split along either diagonal: a mesh in
+/// which every interior edge and vertex is shared.
+fn grid_case(rng: &mut Rng, rep: &mut Report) {
+    let (nx, ny) = (2 + rng.usize(5), 2 + rng.usize(5));
+    let cell = rng.pick(&[1.5f32, 3.0, 5.0, 9.0]);
+    let snap = rng.below(3); // 0: floats, 1: half-pixel lattice, 2: integers
+    let mut pts = vec![[0.0f32; 2]; (nx + 1) * (ny + 1)];
+    for j in 0..=ny {
+        for i in 0..=nx {
+            let mut p = [1.0 + (i as f32 + rng.f32_in(-0.3, 0.3)) * cell, 1.0 + (j as f32 + rng.f32_in(-0.3, 0.3)) * cell];
+            match snap {
+                1 => p = [(p[0] * 2.0).round() / 2.0, (p[1] * 2.0).round() / 2.0],
+                2 => p = [p[0].round(), p[1].round()],
+                _ => {}
+            }
+            pts[j * (nx + 1) + i] = [p[0].max(0.0), p[1].max(0.0)];
+        }
+    }
+    let mut hs = Hasher::new();
+    for p in &pts {
+        hs.f32s(p);
+    }
+    rep.case(hs.get(), true);
+    rep.count("mesh.grids");
+    let mut tris = vec![];
+    for j in 0..ny {
+        for i in 0..nx {
+            let (a, b, c, d) = (pts[j * (nx + 1) + i], pts[j * (nx + 1) + i + 1], pts[(j + 1) * (nx + 1) + i + 1], pts[(j + 1) * (nx + 1) + i]);
+            if rng.bool() {
+                tris.push([a, b, c]);
+                tris.push([a, c, d]);
+            } else {
+                tris.push([a, b, d]);
+                tris.push([b, c, d]);
+            }
+        }
+    }
+    union_check(rep, &tris, ((nx as f32 + 1.5) * cell) as usize + 4, ((ny as f32 + 1.5) * cell) as usize + 4, "grid");
+}
+
+/// Union coverage of a set of triangles: a centre that lies in k triangles,
+/// beyond the band of every edge, must be drawn exactly k times (k = 1
+/// inside a non-overlapping mesh, 0 outside).
+fn union_check(rep: &mut Report, tris: &[[[f32; 2]; 3]], w: usize, h: usize, what: &str) {
+    let mut cnt = vec![0u8; w * h];
+    for t in tris {
+        match fill_unit(t) {
+            Err(m) => {
+                rep.violation("raster.panic", format!("tri_fill panicked: {m}"), cj(t));
+                return;
+            }
+            Ok(spans) => {
+                if judge(rep, t, &spans, true).is_none() {
+                    return;
+                }
+                for s in &spans {
+                    for x in s.x0..s.x1.max(s.x0) {
+                        if x < w && s.y < h {
+                            cnt[s.y * w + x] = cnt[s.y * w + x].saturating_add(1);
+                        }
+                    }
+                }
+            }
+        }
+    }
+    for y in 0..h {
+        for x in 0..w {
+            let p = (x as f64 + 0.5, y as f64 + 0.5);
+            let mut ins = 0;
+            let mut near = false;
+            for t in tris {
+                let v: [P2; 3] = std::array::from_fn(|i| (t[i][0] as f64, t[i][1] as f64));
+                if geo::tri_area2(&v) != 0.0 && geo::tri_inside(p, &v) {
+                    ins += 1;
+                }
+                if geo::tri_edge_dist(p, &v) < BAND {
+                    near = true;
+                }
+            }
+            let got = cnt[y * w + x];
+            if near {
+                if got == 0 && ins > 0 {
+                    rep.count("mesh.in_band_gap_pixels(informational)");
+                }
+                if got > 1 {
+                    rep.count("mesh.in_band_overdraw_pixels(informational)");
+                }
+                rep.count("mesh.in_band_centres");
+                continue;
+            }
+            if got as i32 != ins {
+                rep.violation(
+                    "raster.mesh_gap_or_overdraw",
+                    format!("{what} of {} triangles: centre ({},{}) lies in {ins} triangles (beyond the band) but was drawn {got} times", tris.len(), p.0, p.1),
+                    Json::Arr(tris.iter().take(12).map(cj).collect()),
+                );
+                return;
+            }
+            rep.count("mesh.centres_judged");
+        }
+    }
+}
+
 fn mesh_case(rng: &mut Rng, rep: &mut Report) {
+    if rng.chance(1, 2) {
+        return grid_case(rng, rep);
+    }
     let ext = rng.pick(&[8.0f32, 16.0, 32.0, 64.0]);
     let n = rng.int(3, 7) as usize;
     // fan around a centre vertex
@@ -342,7 +448,7 @@ non-trivial = non-zero area; distinct by hash of the vertex bits"
     });
 
     // Stream 2: partially off any realistic buffer on the right/bottom, still ≤ 64 in extent of the part near the origin
-    rep.run_stream(cfg, 2, "mesh_fans", cfg.n(20_000, 1_000_000), |rng, _, rep| mesh_case(rng, rep));
+    rep.run_stream(cfg, 2, "mesh_fans_and_grids", cfg.n(20_000, 1_000_000), |rng, _, rep| mesh_case(rng, rep));
 
     // Stream 3: large-coordinate class (known finding F9 lives here)
     rep.run_stream(cfg, 3, "large_extent", cfg.n(3_000, 150_000), |rng, _, rep| {
@@ -363,5 +469,6 @@ non-trivial = non-zero area; distinct by hash of the vertex bits"
     rep.floor("shape.sub_pixel_area", 5_000);
     rep.floor("shape.vertex_on_pixel_centre", 10_000);
     rep.floor("mesh.fans", 1_000);
+    rep.floor("mesh.grids", 1_000);
     rep.floor("scanlines_observed", 1_000_000);
 }
